@@ -715,6 +715,11 @@ func (s *SSEServer) handleNotificationMessage(ctx context.Context, rawMessage js
 		return
 	}
 
+	// The handshake is complete: from now on the server may send notifications to this session.
+	if notification.Method == MethodNotificationsInitialized {
+		session.Initialize()
+	}
+
 	// Handle notification asynchronously.
 	go func() {
 		// Create a context that will not be canceled due to HTTP connection closure.
